@@ -93,15 +93,16 @@ def h_nonstring(L, T, kind):
 
 
 def queries(tier):
-    th = tier == 'thorough'
+    deep = 1 if tier == 'thorough' else 0      # the former thorough bounds are the quick bounds now
+    th = True
     qs = []
     for T in ('String', 'Purl'):
         ty = 't' if T == 'String' else 'npm'
         fam = []
-        for n in lens(4 if th else 3):
+        for n in lens(4 + deep):
             fam.append(['pkg:', ('hole', 'h', n)])
         for sl in SLOTS_MIN + SLOTS_FULL[:6]:
-            for n in lens(3 if th else 2, 1):
+            for n in lens(3 + deep, 1):
                 fam.append([p.replace('pkg:t/', 'pkg:%s/' % ty) if isinstance(p, str) else p for p in fill(sl, n)])
         fam.append(['pkg:%s/n?checksum=' % ty, ('hole', 'h', 3)])
         fam.append([('hole', 'h', 4)])
